@@ -88,6 +88,11 @@ func isUsed(field string, node Node) bool {
 						used = true
 					}
 				}
+			case NodeTypeUnnest:
+				// The unnested field is looked up by name when the node is materialized.
+				if node.Unnest.Field == field {
+					used = true
+				}
 			default:
 			}
 
